@@ -53,6 +53,8 @@ pub struct Shape {
     pub two_word: bool,
     pub odd_db: bool,
     pub org_gap: bool,
+    /// the instruction is the first one after an .org gap, a segment excursion or data
+    pub lead: bool,
 }
 
 /// Filler items totalling exactly `total` words.  `allow_org`: an `.org` gap may be used (its
@@ -162,8 +164,49 @@ pub fn build(c: &RelCase) -> Built {
     let addr;
     let target;
     let ins_index;
+    // what stands directly in front of the instruction: nothing, an .org gap, an excursion into
+    // another segment, or data (the instruction is then the first one after it)
+    let lead_kind = (c.k / 12) % 6;
+    let lead_words: i64 = match lead_kind {
+        1 => 1 + (c.k as i64 % 5),
+        4 => 1,
+        5 => 2,
+        _ => 0,
+    };
+    let mut lead = |prog: &mut Vec<Ln>, at: i64, shape: &mut Shape| match lead_kind {
+        1 => {
+            shape.org_gap = true;
+            shape.lead = true;
+            prog.push(Ln::st(St::Org(E::Num(at + lead_words))));
+        }
+        2 if c.dev != 1 => {
+            // (ATtiny20 has no EEPROM)
+            shape.lead = true;
+            prog.push(Ln::st(St::Seg(Seg::Eeprom)));
+            prog.push(Ln::st(St::Data(DKind::Db, vec![DItem::Ex(E::Num(1)), DItem::Ex(E::Num(2)), DItem::Ex(E::Num(3))])));
+            prog.push(Ln::st(St::Seg(Seg::Code)));
+        }
+        3 => {
+            shape.lead = true;
+            prog.push(Ln::st(St::Seg(Seg::Data)));
+            prog.push(Ln::st(St::Byte(E::Num(3))));
+            prog.push(Ln::st(St::Seg(Seg::Code)));
+        }
+        4 => {
+            shape.odd_db = true;
+            shape.lead = true;
+            prog.push(Ln::st(St::Data(DKind::Db, vec![DItem::Ex(E::Num(7))])));
+        }
+        5 => {
+            shape.lead = true;
+            prog.push(Ln::st(St::Data(DKind::Dw, vec![DItem::Ex(E::Num(7)), DItem::Ex(E::Num(8))])));
+        }
+        _ => {}
+    };
     if c.d >= 0 {
         // forward: instruction, filler of d words, target
+        lead(&mut prog, start, &mut shape);
+        let start = start + lead_words;
         addr = start;
         ins_index = prog.len();
         prog.push(Ln::st(mk_ins(E::sym("tgt"))));
@@ -175,7 +218,12 @@ pub fn build(c: &RelCase) -> Built {
         let f = -c.d - 1;
         target = start;
         prog.push(Ln::label("tgt"));
-        prog.extend(filler(&c.filler, f, start, &mut shape, c.dev));
+        if f >= lead_words {
+            prog.extend(filler(&c.filler, f - lead_words, start, &mut shape, c.dev));
+            lead(&mut prog, start + f - lead_words, &mut shape);
+        } else {
+            prog.extend(filler(&c.filler, f, start, &mut shape, c.dev));
+        }
         addr = start + f;
         ins_index = prog.len();
         prog.push(Ln::st(mk_ins(E::sym("tgt"))));
@@ -222,6 +270,9 @@ pub fn test(c: &RelCase, ev: &mut Ev, opts: &ModelOpts) -> Result<(), Violation>
     }
     if b.shape.org_gap {
         ev.class("filler-org-gap");
+    }
+    if b.shape.lead {
+        ev.class("instruction-first-after-gap-excursion-or-data");
     }
     let in_range = (-lim..lim).contains(&c.d);
     match &exp {
